@@ -281,35 +281,61 @@ pub fn body(case: &Case, out: &Shared) {
                     let keys = plan.keys.clone();
                     let r = call("seek-program", || -> Option<String> {
                         let mut it = d.new_iterator(raindb::ReadOptions { fill_cache: fill_cache(), snapshot: None }).ok()?;
+                        // A positioning call that returns Ok and leaves status() empty must not skip a
+                        // key that has to be visible, stand before its target, or show a value that
+                        // no write explains.
+                        let check_seek = |it: &mut dyn raindb::RainDbIterator<Key = Vec<u8>, Error = raindb::RainDBError>, t: &Vec<u8>| -> Option<String> {
+                            if it.seek(t).is_err() || it.status().is_some() {
+                                return None;
+                            }
+                            let pos = if it.is_valid() { it.current().map(|(k, v)| (k.clone(), v.clone())) } else { None };
+                            let mut between: Vec<&Vec<u8>> = keys.iter().filter(|u| *u >= t && pos.as_ref().map(|p| **u < p.0).unwrap_or(true)).collect();
+                            between.sort();
+                            if let Some(u) = between.into_iter().find(|u| !allowed(&writes, u).contains(&None)) {
+                                return Some(format!("seek to {} returned Ok with no error status, positioned at {} - but key {} lies in between and must be visible", show_key(t), pos.as_ref().map(|p| show_key(&p.0)).unwrap_or("<invalid>".into()), show_key(u)));
+                            }
+                            if let Some((pk, pv)) = pos {
+                                if &pk < t {
+                                    return Some(format!("seek to {} is positioned before its target, at {}", show_key(t), show_key(&pk)));
+                                }
+                                if !allowed(&writes, &pk).contains(&Some(pv.clone())) {
+                                    return Some(format!("seek to {} shows {} = {} which no write explains", show_key(t), show_key(&pk), show_val(&pv)));
+                                }
+                            }
+                            None
+                        };
                         // first a full forward walk with this very iterator: if the fault hits one of
-                        // its steps, the seeks below re-use an iterator that has reported an error
-                        if it.seek_to_first().is_ok() {
+                        // its steps, the iterator has reported an error and is used again - first of
+                        // all for a seek back to the key it stood on when the step failed (the block
+                        // or file it was leaving), then for the seeks below
+                        for backward in [false, true] {
+                            let positioned = if backward { it.seek_to_last().is_ok() } else { it.seek_to_first().is_ok() };
+                            if !positioned {
+                                continue;
+                            }
+                            let mut last: Option<Vec<u8>> = None;
                             let mut guard = 0;
                             while it.is_valid() && guard < 10_000 {
-                                it.next();
+                                last = it.current().map(|(k, _)| k.clone());
+                                if backward {
+                                    it.prev();
+                                } else {
+                                    it.next();
+                                }
                                 guard += 1;
+                            }
+                            if it.status().is_some() {
+                                if let Some(t) = last {
+                                    if let Some(d) = check_seek(&mut it, &t) {
+                                        return Some(format!("after a {} step of this iterator failed: {}", if backward { "prev()" } else { "next()" }, d));
+                                    }
+                                }
                             }
                         }
                         for k in keys.iter().take(12) {
                             for t in [k.clone(), { let mut a = k.clone(); a.push(0); a }] {
-                                // the same iterator is used again after it reported an error: a new
-                                // positioning call starts afresh and must be right or report again
-                                if it.seek(&t).is_err() || it.status().is_some() {
-                                    continue;
-                                }
-                                let pos = if it.is_valid() { it.current().map(|(k, v)| (k.clone(), v.clone())) } else { None };
-                                let mut between: Vec<&Vec<u8>> = keys.iter().filter(|u| **u >= t && pos.as_ref().map(|p| **u < p.0).unwrap_or(true)).collect();
-                                between.sort();
-                                if let Some(u) = between.into_iter().find(|u| !allowed(&writes, u).contains(&None)) {
-                                    return Some(format!("seek to {} returned Ok with no error status, positioned at {} - but key {} lies in between and must be visible", show_key(&t), pos.as_ref().map(|p| show_key(&p.0)).unwrap_or("<invalid>".into()), show_key(u)));
-                                }
-                                if let Some((pk, pv)) = pos {
-                                    if pk < t {
-                                        return Some(format!("seek to {} is positioned before its target, at {}", show_key(&t), show_key(&pk)));
-                                    }
-                                    if !allowed(&writes, &pk).contains(&Some(pv.clone())) {
-                                        return Some(format!("seek to {} shows {} = {} which no write explains", show_key(&t), show_key(&pk), show_val(&pv)));
-                                    }
+                                if let Some(d) = check_seek(&mut it, &t) {
+                                    return Some(d);
                                 }
                             }
                         }
